@@ -6,6 +6,13 @@ from .type import Type
 from .type_boolean import BooleanType
 from ..settings import Numeric
 
+def _cast(dtype, value):
+    # a constant compared with an integer node keeps its fractional part
+    if dtype is int:
+        number = float(value)
+        return int(number) if number.is_integer() else number
+    return dtype(value)
+
 class NumberType(Type):
     dtype = None
     typename: str = 'number'
@@ -20,12 +27,12 @@ class NumberType(Type):
             else:
                 if other.dtype in [int,float]:
                     self.convert(other.unit)
-                self.value = other.dtype(self.value)
+                self.value = _cast(other.dtype, self.value)
         elif other.dtype not in [int,float,str,bool]:
             # if other node datatype is unknown
             if self.dtype in [int,float]:
                 other.convert(self.unit)
-            other.value = self.dtype(other.value)
+            other.value = _cast(self.dtype, other.value)
         elif type(self)==type(other):
             # if both datatypes are known
             if self.dtype in [int,float]:
